@@ -50,6 +50,16 @@ class LimitGatedScheduler {
           unlimited_(res == std::numeric_limits<ssize_t>::max()),
           serial_(res == 1) {}
 
+    // By the time a stage is destroyed every invocation of the pipeline has finished.  After an
+    // exception the local queue may still hold invocations that arrived after wait() gave up
+    // draining it; an OnceFunction releases what it holds only when told to.
+    ~Impl() {
+      OnceFunction leftover;
+      while (queue_.try_dequeue(leftover)) {
+        leftover.cleanupNotRun();
+      }
+    }
+
     template <typename F>
     void schedule(F&& fPipe) {
       outstanding_.fetch_add(1, std::memory_order_acq_rel);
